@@ -4,6 +4,7 @@ import itertools
 import math
 
 from core import fseq, fseqs, fbool, fcells, pseq, pseqs, guarded
+import used
 
 PROP = "C11"
 RULE = ("one line = one Perm method (op pf), one predefined statistic by table index (op stat), or one tool call of "
@@ -164,16 +165,84 @@ def impl(op, a):
             signal.setitimer(signal.ITIMER_REAL, 0)
 
 
+_COSTLY = ("holeyness", "fourpats", "threepats", "count_stack_sorts", "count_pop_stack_sorts")
+
+
+def _related(f):
+    """the sibling methods of f (count_x / x / x_list / x_set): they are the ones that would share a memo"""
+    base = f[len("count_"):] if f.startswith("count_") else f
+    for suf in ("_list", "_set"):
+        if base.endswith(suf):
+            base = base[:-len(suf)]
+    return [g for g in (base, "count_" + base, base + "_list", base + "_set") if g != f]
+
+
+def _use_stats(p, f, dg):
+    """use the permutation object before the statistic under test is evaluated on it: generic use, the sibling
+    methods of f, three other statistics picked by the line's digest (results discarded; listings only partly
+    consumed) and f itself with its listing abandoned after one item"""
+    used.warm_perm(p, 0)
+    if not used.is_perm(p):
+        return
+    n = len(ALL_FUNCS)
+    names = _related(f) + [ALL_FUNCS[(dg >> s) % n] for s in (3, 11, 19)] + [f]
+    for g in names:
+        if (g in _COSTLY and len(p) > 6) or g in OPTIONAL_FUNCS:
+            continue
+        m = getattr(p, g, None)
+        if m is None:
+            continue
+        try:
+            r = m()
+            if hasattr(r, "__next__"):
+                next(r, None)
+        except Exception:  # pylint: disable=broad-except
+            pass
+
+
+def _heavy(op, a):
+    """every line with a long permutation (the random stream) and a deterministic eighth of the short ones"""
+    return len(a) >= 2 and (len(a[1]) >= 19 or used.sel(op, a, 8))
+
+
 def _impl(op, a):
     if op in ("pf", "pfm"):
         f = a[0]
+        if not _heavy(op, a):
+            def run0():
+                p = Perm(pseq(a[1]))
+                if len(a) >= 3:
+                    return fmt(f, getattr(p, f)(_step(a)))
+                return fmt(f, getattr(p, f)())
+            return guarded(run0)
+        box = []
 
         def run():
-            p = Perm(pseq(a[1]))
+            if not box:
+                box.append(Perm(pseq(a[1])))
+                _use_stats(box[0], f, used.digest(op, a))
+            p = box[0]
             if len(a) >= 3:
                 return fmt(f, getattr(p, f)(_step(a)))
             return fmt(f, getattr(p, f)())
-        return guarded(run)
+        # the statistic under test is evaluated twice on the same, used, object
+        return used.twice(lambda: guarded(run))
+    if op in ("stat", "statm") and _heavy(op, a):
+        box = []
+
+        def runs():
+            if not box:
+                box.append(Perm(pseq(a[1])))
+                p0 = box[0]
+                used.warm_perm(p0, 0)
+                if used.is_perm(p0):
+                    for j in (int(a[0]) + 1, int(a[0]) + 7, int(a[0])):
+                        st = used.quiet(PS.get_by_index, j % NSTATS)
+                        if st is None or (len(p0) > 6 and getattr(st.func, "__name__", "") in _COSTLY):
+                            continue
+                        used.quiet(st.func, p0)
+            return str(int(PS.get_by_index(int(a[0])).func(box[0])))
+        return used.twice(lambda: guarded(runs))
     if op == "isprime":
         return guarded(lambda: fbool(is_prime(int(a[0]))))
     if op == "statname":
